@@ -1,45 +1,16 @@
 /-
 C18 — SKK import is total and everything it emits is a valid, faithful dictionary line.
 
-Model: Chokan.Model.Skk (skk-dic-parser and the noun / jinmei / tankan converters).  The notes
-grammar and converter are checked on the implementation only (executable oracle of the C18 check);
-they are not modelled — stated in MANIFEST as partial.
+Models: Chokan.Model.Skk (skk-dic-parser and the noun / jinmei / tankan converters) and
+Chokan.Model.SkkNotes (skk-notes-converter: the notes PEG grammar and `Note::to_entries`).  Both are
+hand translations; `./check C18` runs them against the implementation on generated, mutated and
+directed lines (ops skk / skknoun / skkproper / skktankan / skknote).
 -/
-import Chokan.Model.Skk
-import Chokan.Props.C10
+import Chokan.Lemmas.SkkNotesConv
 
 namespace Chokan.Props.C18
-open Chokan.Skk Chokan.Dic Chokan.DicText
-
-theorem spanClass_spec (p : Nat → Bool) : ∀ (s : Str),
-    s = (spanClass p s).1 ++ (spanClass p s).2 ∧ (∀ c ∈ (spanClass p s).1, p c = true) ∧
-    (∀ c rest, (spanClass p s).2 = c :: rest → p c = false)
-  | [] => by simp [spanClass]
-  | c :: t => by
-    have ih := spanClass_spec p t
-    unfold spanClass
-    by_cases hc : p c = true
-    · simp only [hc, if_true]
-      refine ⟨by simp; exact ih.1, ?_, ih.2.2⟩
-      intro x hx
-      rcases List.mem_cons.1 hx with rfl | hx
-      · exact hc
-      · exact ih.2.1 x hx
-    · have hc' : p c = false := by simpa using hc
-      simp only [hc', Bool.false_eq_true, if_false]
-      refine ⟨rfl, by simp, ?_⟩
-      intro x rest h
-      simp only [List.cons.injEq] at h
-      rw [← h.1]; exact hc'
-
-/-- Every SKK reading character is a reading character of the dictionary text format. -/
-theorem skkKana_in_dic_class (c : Nat) (h : skkKana c = true) :
-    isKana Chokan.Gen.DicGrammar.kanaClass c = true := by
-  simp only [skkKana, Bool.or_eq_true, Bool.and_eq_true, Nat.ble_eq] at h
-  rcases h with (h | h) | h
-  · exact C10.C10_kana_class c (by omega) (by omega)
-  · have := Nat.eq_of_beq_eq_true h; subst this; exact C10.C10_kana_class _ (by omega) (by omega)
-  · have := Nat.eq_of_beq_eq_true h; subst this; decide +kernel
+open Chokan.Skk Chokan.Dic Chokan.DicText Chokan.SkkNotes
+open Chokan.Props.C10 (storableSpeeches Storable)
 
 /-- Unfolding of a successful parse. -/
 theorem parseSkk_some (s : Str) (e : SkkEntry) (h : parseSkk s = some e) :
@@ -189,5 +160,312 @@ candidates only. -/
 theorem C18_noun_skips_okuri (s : Str) (e : SkkEntry) (h : parseSkk s = some e) (ho : e.okuri.isSome = true) :
     parseNouns s = some none := by
   simp [parseNouns, h, ho]
+
+/-! ## the notes converter -/
+
+/-- A successfully parsed notes line has a non-empty kana headword, at most one okuri letter, at
+least one entry, and every fixed okuri is a non-empty kana string. -/
+theorem C18_notes_parse_shape (s : Str) (n : Note) (h : parseNote s = .note n) :
+    n.headword ≠ [] ∧ (∀ c ∈ n.headword, skkKana c = true) ∧ n.okuri.length ≤ 1 ∧
+    n.entries ≠ [] ∧ ∀ e ∈ n.entries, EntryOK e := by
+  obtain ⟨a, b, c, _, d, e⟩ := parseNote_ok s n h
+  exact ⟨a, b, c, d, e⟩
+
+/-- Comment lines yield no note and no error. -/
+theorem C18_notes_comment (rest : Str) : parseNote (59 :: rest) = .none := rfl
+
+theorem speechOf_storable (sp : NoteSpeech) (h : ∀ cls row o, sp = .verb cls row o → Speech.verb cls row ∈ storableSpeeches) :
+    speechOf sp ∈ storableSpeeches := by
+  cases sp with
+  | verb cls row o => exact h cls row o rfl
+  | noun tag o =>
+    show (if (tag == lit "サ変名詞") then Speech.noun .sahen else Speech.noun .common) ∈ storableSpeeches
+    by_cases ht : (tag == lit "サ変名詞") = true
+    · rw [if_pos ht]; decide +kernel
+    · rw [if_neg ht]; decide +kernel
+  | adjective o => show Speech.adjective ∈ storableSpeeches; decide +kernel
+  | adjectivalVerb o => show Speech.adjectivalVerb ∈ storableSpeeches; decide +kernel
+  | adverb o => show Speech.adverb ∈ storableSpeeches; decide +kernel
+  | counter o => show Speech.counter ∈ storableSpeeches; decide +kernel
+  | verbatim o => show Speech.verbatim ∈ storableSpeeches; decide +kernel
+  | preNoun o => show Speech.preNounAdjectival ∈ storableSpeeches; decide +kernel
+  | conjParticle o => show Speech.particle .conjunctive ∈ storableSpeeches; decide +kernel
+  | conjunction o => show Speech.conjunction ∈ storableSpeeches; decide +kernel
+
+theorem affix_storable : Speech.affix .prefix ∈ storableSpeeches ∧ Speech.affix .suffix ∈ storableSpeeches := by
+  decide +kernel
+
+theorem mem_of_prefix {a b : Str} (h : a <+: b) : ∀ c ∈ a, c ∈ b := by
+  obtain ⟨t, rfl⟩ := h
+  intro c hc; exact List.mem_append_left _ hc
+
+/-- What `get_dictionary_form` returns: non-empty prefixes of `stem ++ okuri` and `headword ++ okuri`
+where the okuri is a kana string. -/
+theorem dictionaryForm_spec (e : NoteEntry) (hw : Str) (st rd : Str) (he : EntryOK e) (hhw : hw ≠ [])
+    (h : dictionaryForm e hw = .ok (st, rd)) :
+    ∃ ok, KanaStr ok ∧ st ≠ [] ∧ st <+: e.stem ++ ok ∧ rd ≠ [] ∧ rd <+: hw ++ ok ∧
+      (∀ cls row o, e.speech = .verb cls row o → Speech.verb cls row ∈ storableSpeeches) := by
+  unfold dictionaryForm at h
+  cases hk : toOkuriKana e.speech with
+  | unsupported => simp [hk] at h
+  | panic => simp [hk] at h
+  | ok ok =>
+    simp only [hk] at h
+    obtain ⟨hkana, hadjne⟩ := toOkuriKana_spec e.speech ok hk he.1
+    cases h1 : dropDictionaryOkuri (e.stem ++ ok) e.speech with
+    | unsupported => simp [h1] at h
+    | panic => simp [h1] at h
+    | ok st' =>
+      simp only [h1] at h
+      cases h2 : dropDictionaryOkuri (hw ++ ok) e.speech with
+      | unsupported => simp [h2] at h
+      | panic => simp [h2] at h
+      | ok rd' =>
+        simp only [h2, CRes.ok.injEq, Prod.mk.injEq] at h
+        obtain ⟨rfl, rfl⟩ := h
+        have hlen : ∀ (x : Str), x ≠ [] → isAdj e.speech = true → 3 < utf8LenStr (x ++ ok) := by
+          intro x hx ha
+          rw [Dic.utf8LenStr_append]
+          have := SkkNotes.utf8LenStr_pos x hx
+          have := utf8LenStr_kana ok hkana (hadjne ha)
+          omega
+        obtain ⟨a1, a2⟩ := dropDict_spec _ _ _ h1 (by simp [he.2.1]) (hlen _ he.2.1)
+        obtain ⟨b1, b2⟩ := dropDict_spec _ _ _ h2 (by simp [hhw]) (hlen _ hhw)
+        refine ⟨ok, hkana, a1, a2, b1, b2, ?_⟩
+        intro cls row o hsp
+        rw [hsp] at h1
+        unfold dropDictionaryOkuri at h1
+        simp only at h1
+        cases hs : skkOkuri cls row with
+        | none => simp [hs] at h1
+        | some k => exact (skkOkuri_some cls row k hs).1
+
+theorem entryToEntries_spec (e : NoteEntry) (hw : Str) (l : List Entry) (h : entryToEntries e hw = .ok l) :
+    ∃ st rd, dictionaryForm e hw = .ok (st, rd) ∧
+      ∀ x ∈ l, x.stem = st ∧ x.stemReading = rd ∧
+        (x.speech = speechOf e.speech ∨ x.speech = .affix .prefix ∨ x.speech = .affix .suffix) := by
+  unfold entryToEntries at h
+  cases hd : dictionaryForm e hw with
+  | unsupported => simp [hd] at h
+  | panic => simp [hd] at h
+  | ok p =>
+    obtain ⟨st, rd⟩ := p
+    refine ⟨st, rd, rfl, ?_⟩
+    simp only [hd] at h
+    split at h
+    · next sp hsp =>
+      simp only [CRes.ok.injEq] at h
+      subst h
+      have hsp' : sp = .affix .prefix ∨ sp = .affix .suffix := by
+        cases ho : e.speech.okuri with
+        | none => simp [ho] at hsp
+        | some o =>
+          simp only [ho, Option.bind_some] at hsp
+          split at hsp
+          · simp at hsp; exact Or.inl hsp.symm
+          · split at hsp
+            · simp at hsp; exact Or.inr hsp.symm
+            · cases hsp
+      intro x hx
+      simp only [List.mem_cons, List.not_mem_nil, or_false] at hx
+      rcases hx with rfl | rfl
+      · exact ⟨rfl, rfl, Or.inl rfl⟩
+      · exact ⟨rfl, rfl, Or.inr hsp'⟩
+    · simp only [CRes.ok.injEq] at h
+      subst h
+      intro x hx
+      simp only [List.mem_singleton] at hx
+      subst hx
+      exact ⟨rfl, rfl, Or.inl rfl⟩
+
+theorem noteToEntries_mem (n : Note) (es : List Entry) (h : noteToEntries n = .ok es) :
+    ∀ x ∈ es, ∃ e ∈ n.entries, ∃ l, entryToEntries e n.headword = .ok l ∧ x ∈ l := by
+  unfold noteToEntries at h
+  have gen : ∀ (l : List NoteEntry) (acc es : List Entry),
+      (∀ x ∈ acc, ∃ e ∈ n.entries, ∃ l, entryToEntries e n.headword = .ok l ∧ x ∈ l) →
+      (∀ e ∈ l, e ∈ n.entries) →
+      l.foldl (fun acc e =>
+        match acc with
+        | .ok l => (match entryToEntries e n.headword with
+          | .ok l2 => .ok (l ++ l2)
+          | .unsupported => .unsupported
+          | .panic => .panic)
+        | r => r) (CRes.ok acc) = .ok es →
+      ∀ x ∈ es, ∃ e ∈ n.entries, ∃ l, entryToEntries e n.headword = .ok l ∧ x ∈ l := by
+    intro l
+    induction l with
+    | nil =>
+      intro acc es hacc _ h
+      simp only [List.foldl_nil, CRes.ok.injEq] at h
+      subst h; exact hacc
+    | cons e t ih =>
+      intro acc es hacc hsub h
+      simp only [List.foldl_cons] at h
+      cases he : entryToEntries e n.headword with
+      | ok l2 =>
+        simp only [he] at h
+        refine ih (acc ++ l2) es ?_ (fun e' he' => hsub e' (List.mem_cons_of_mem _ he')) h
+        intro x hx
+        rcases List.mem_append.1 hx with hx | hx
+        · exact hacc x hx
+        · exact ⟨e, hsub e (by simp), l2, he, hx⟩
+      | unsupported =>
+        simp only [he] at h
+        exfalso
+        have stuck : ∀ (t : List NoteEntry), t.foldl (fun acc e =>
+            match acc with
+            | .ok l => (match entryToEntries e n.headword with
+              | .ok l2 => .ok (l ++ l2)
+              | .unsupported => .unsupported
+              | .panic => .panic)
+            | r => r) (CRes.unsupported : CRes (List Entry)) = .unsupported := by
+          intro t; induction t with
+          | nil => rfl
+          | cons a t ih => simpa using ih
+        rw [stuck] at h; cases h
+      | panic =>
+        simp only [he] at h
+        exfalso
+        have stuck : ∀ (t : List NoteEntry), t.foldl (fun acc e =>
+            match acc with
+            | .ok l => (match entryToEntries e n.headword with
+              | .ok l2 => .ok (l ++ l2)
+              | .unsupported => .unsupported
+              | .panic => .panic)
+            | r => r) (CRes.panic : CRes (List Entry)) = .panic := by
+          intro t; induction t with
+          | nil => rfl
+          | cons a t ih => simpa using ih
+        rw [stuck] at h; cases h
+  exact gen n.entries [] es (by intro x hx; cases hx) (fun e he => he) h
+
+/-- **Every entry the notes converter emits for a parsed line is accepted by the dictionary text
+format and reads back as the same reading, written form and part of speech** — provided the written
+form holds no blank or TAB (the notes stem class excludes `;` and `/` only). -/
+theorem C18_notes_emitted_valid (s : Str) (n : Note) (es : List Entry)
+    (hp : parseNote s = .note n) (hc : noteToEntries n = .ok es) :
+    ∀ x ∈ es, (∀ c ∈ x.stem, c ≠ 32 ∧ c ≠ 9) → C10.parseL (C10.printE x) = some [x] := by
+  intro x hx hsp
+  apply C10.C10_entry
+  obtain ⟨hne, hkana, _, _, hents⟩ := C18_notes_parse_shape s n hp
+  obtain ⟨e, he, l, hl, hxl⟩ := noteToEntries_mem n es hc x hx
+  obtain ⟨st, rd, hdf, hall⟩ := entryToEntries_spec e n.headword l hl
+  obtain ⟨hst, hrd, hspch⟩ := hall x hxl
+  obtain ⟨ok, hok, st_ne, st_pre, rd_ne, rd_pre, hverb⟩ := dictionaryForm_spec e n.headword st rd (hents e he) hne hdf
+  refine ⟨by rw [hrd]; exact rd_ne, ?_, by rw [hst]; exact st_ne, ?_, ?_⟩
+  · intro c hc
+    rw [hrd] at hc
+    have := mem_of_prefix rd_pre c hc
+    rcases List.mem_append.1 this with h | h
+    · exact skkKana_in_dic_class c (hkana c h)
+    · exact skkKana_in_dic_class c (hok c h)
+  · intro c hc
+    obtain ⟨h1, h2⟩ := hsp c hc
+    simp only [isNoSpace, Bool.not_eq_true', Bool.or_eq_false_iff]
+    exact ⟨by cases hb : Nat.beq c 32 with | false => rfl | true => exact absurd (Nat.eq_of_beq_eq_true hb) h1,
+           by cases hb : Nat.beq c 9 with | false => rfl | true => exact absurd (Nat.eq_of_beq_eq_true hb) h2⟩
+  · rcases hspch with h | h | h
+    · rw [h]; exact speechOf_storable e.speech hverb
+    · rw [h]; exact affix_storable.1
+    · rw [h]; exact affix_storable.2
+
+/-- The reading of every emitted entry starts with the headword's first kana and is a prefix of
+headword ++ okuri; the written form likewise starts with the note stem's first character. -/
+theorem C18_notes_faithful (s : Str) (n : Note) (es : List Entry)
+    (hp : parseNote s = .note n) (hc : noteToEntries n = .ok es) :
+    ∀ x ∈ es, ∃ e ∈ n.entries, ∃ ok, KanaStr ok ∧
+      x.stem ≠ [] ∧ x.stem <+: e.stem ++ ok ∧ x.stemReading ≠ [] ∧ x.stemReading <+: n.headword ++ ok := by
+  intro x hx
+  obtain ⟨hne, _, _, _, hents⟩ := C18_notes_parse_shape s n hp
+  obtain ⟨e, he, l, hl, hxl⟩ := noteToEntries_mem n es hc x hx
+  obtain ⟨st, rd, hdf, hall⟩ := entryToEntries_spec e n.headword l hl
+  obtain ⟨hst, hrd, _⟩ := hall x hxl
+  obtain ⟨ok, hok, st_ne, st_pre, rd_ne, rd_pre, _⟩ := dictionaryForm_spec e n.headword st rd (hents e he) hne hdf
+  exact ⟨e, he, ok, hok, by rw [hst]; exact st_ne, by rw [hst]; exact st_pre, by rw [hrd]; exact rd_ne, by rw [hrd]; exact rd_pre⟩
+
+theorem dictionaryForm_no_panic (e : NoteEntry) (hw : Str) (he : EntryOK e) (hhw : hw ≠ []) :
+    dictionaryForm e hw ≠ .panic := by
+  unfold dictionaryForm
+  cases hk : toOkuriKana e.speech with
+  | unsupported => intro h; cases h
+  | panic => exact absurd hk (toOkuriKana_no_panic _)
+  | ok ok =>
+    simp only
+    obtain ⟨hkana, hadjne⟩ := toOkuriKana_spec e.speech ok hk he.1
+    have hadj : ∀ (x : Str), isAdj e.speech = true → ∃ y c, x ++ ok = y ++ [c] ∧ utf8Len c = 3 := by
+      intro x ha
+      obtain ⟨y, c, hy, hc⟩ := kana_last ok hkana (hadjne ha)
+      exact ⟨x ++ y, c, by rw [hy, List.append_assoc], hc⟩
+    have n1 := dropDict_no_panic (e.stem ++ ok) e.speech (by simp [he.2.1]) (hadj _)
+    have n2 := dropDict_no_panic (hw ++ ok) e.speech (by simp [hhw]) (hadj _)
+    cases h1 : dropDictionaryOkuri (e.stem ++ ok) e.speech with
+    | unsupported => intro h; cases h
+    | panic => exact absurd h1 n1
+    | ok st =>
+      simp only
+      cases h2 : dropDictionaryOkuri (hw ++ ok) e.speech with
+      | unsupported => intro h; cases h
+      | panic => exact absurd h2 n2
+      | ok rd => intro h; cases h
+
+theorem entryToEntries_no_panic (e : NoteEntry) (hw : Str) (he : EntryOK e) (hhw : hw ≠ []) :
+    entryToEntries e hw ≠ .panic := by
+  unfold entryToEntries
+  cases hd : dictionaryForm e hw with
+  | unsupported => intro h; cases h
+  | panic => exact absurd hd (dictionaryForm_no_panic e hw he hhw)
+  | ok p =>
+    obtain ⟨st, rd⟩ := p
+    simp only
+    split <;> (intro h; cases h)
+
+/-- **The notes converter never panics on a parsed line**: the only way a parsed note fails to
+convert is the explicit unsupported-conjugation rejection (`form_to_skk_okuri`'s `panic!` arms). -/
+theorem C18_notes_no_panic (s : Str) (n : Note) (hp : parseNote s = .note n) : noteToEntries n ≠ .panic := by
+  obtain ⟨hne, _, _, _, hents⟩ := C18_notes_parse_shape s n hp
+  unfold noteToEntries
+  have gen : ∀ (l : List NoteEntry) (acc : CRes (List Entry)), acc ≠ .panic → (∀ e ∈ l, EntryOK e) →
+      l.foldl (fun acc e =>
+        match acc with
+        | .ok l => (match entryToEntries e n.headword with
+          | .ok l2 => .ok (l ++ l2)
+          | .unsupported => .unsupported
+          | .panic => .panic)
+        | r => r) acc ≠ .panic := by
+    intro l
+    induction l with
+    | nil => intro acc h _; simpa using h
+    | cons e t ih =>
+      intro acc hacc hall
+      simp only [List.foldl_cons]
+      apply ih _ _ (fun e' he' => hall e' (List.mem_cons_of_mem _ he'))
+      cases acc with
+      | panic => exact absurd rfl hacc
+      | unsupported => intro h; cases h
+      | ok l =>
+        simp only
+        cases he : entryToEntries e n.headword with
+        | panic => exact absurd he (entryToEntries_no_panic e n.headword (hall e (by simp)) hne)
+        | unsupported => intro h; cases h
+        | ok l2 => intro h; cases h
+  exact gen n.entries (.ok []) (by intro h; cases h) hents
+
+/-! Non-vacuity: concrete lines meet the hypotheses (a verb with class okuri, an affix-producing
+adverb, an adjective with a fixed okuri), and the D14 line panics in the converter. -/
+
+def exLine1 : Str := lit "わらu /笑;∥<base>ワ行五段[wiueot(c)]/"
+def exLine2 : Str := lit "ふ /不;∥副詞[>]/"
+def exLine3 : Str := lit "おんみつ /隠密;∥形容動詞[φdn(s)]/"
+
+def convOk (s : Str) : Bool :=
+  match parseNote s with
+  | .note n => (match noteToEntries n with | .ok es => !es.isEmpty | _ => false)
+  | _ => false
+
+example : convOk exLine1 = true ∧ convOk exLine2 = true ∧ convOk exLine3 = true := by decide +kernel
+
+/-- The line that used to panic (a one-byte stem with a fixed okuri shorter than the class's
+dictionary ending, finding D14) now converts. -/
+example : convOk (lit "くし /a;∥文語ア行下一(-た)[--]/") = true := by decide +kernel
 
 end Chokan.Props.C18
